@@ -1145,3 +1145,393 @@ Proof.
   pose proof (targets_anchored l (zlen img) (zlen img) acm bpm km fit Ha Hw') as Ht.
   eapply stitch_loop_reread; [exact Hs | rewrite Ht; exact Hd | rewrite Ht; apply In_spec_targets; assumption | exact Hk].
 Qed.
+
+(* ================================================================== *)
+(** * the BootGuard object across calls (Model/IBB.v [step], [run]) *)
+
+Lemma set_nth_length {A} (x : A) : forall l n, length (set_nth n x l) = length l.
+Proof. induction l as [|h t IH]; intros [|n]; cbn [set_nth length]; auto. Qed.
+
+Lemma nth_set_nth_eq {A} (x d : A) : forall l n, (n < length l)%nat -> nth n (set_nth n x l) d = x.
+Proof.
+  induction l as [|h t IH]; intros [|n] H; cbn [set_nth nth length] in *; try lia; auto.
+  apply IH. lia.
+Qed.
+
+Lemma nth_set_nth_neq {A} (x d : A) : forall l n m, n <> m -> nth m (set_nth n x l) d = nth m l d.
+Proof.
+  induction l as [|h t IH]; intros [|n] [|m] H; cbn [set_nth nth]; try reflexivity; try congruence.
+  apply IH. congruence.
+Qed.
+
+Lemma put_segs_se_count st i s : se_count (put_segs st i s) = se_count st.
+Proof. unfold se_count, put_segs, zlen. cbn [bg_segs]. rewrite set_nth_length. reflexivity. Qed.
+
+Lemma put_segs_same st i s : 0 <= i < se_count st -> segs_of (put_segs st i s) i = s.
+Proof.
+  unfold segs_of, put_segs, se_count, zlen. cbn [bg_segs]. intros H. apply nth_set_nth_eq. lia.
+Qed.
+
+Lemma put_segs_other st i s j : 0 <= i -> 0 <= j -> i <> j -> segs_of (put_segs st i s) j = segs_of st j.
+Proof. unfold segs_of, put_segs; cbn [bg_segs]. intros. apply nth_set_nth_neq. lia. Qed.
+
+Lemma store_created_ok st i r st' :
+  store_created st i r = (st', RUnit (Ok tt)) -> exists s, r = Ok s /\ st' = put_segs st i s.
+Proof. destruct r; cbn [store_created unit_of]; intros E; inversion E; eauto. Qed.
+
+(** a call that does not succeed leaves the object as it was *)
+Lemma store_created_not_ok st i r st' res :
+  store_created st i r = (st', res) -> res <> RUnit (Ok tt) -> st' = st.
+Proof.
+  destruct r; cbn [store_created unit_of]; intros E N; inversion E; subst; try reflexivity.
+  exfalso. apply N. reflexivity.
+Qed.
+
+Lemma create_ibb_segments_ok_range n i flags fit s :
+  create_ibb_segments n i flags fit = Ok s -> 0 <= i < n.
+Proof.
+  unfold create_ibb_segments. destruct fit as [es|]; [|discriminate].
+  destruct (create_segments flags es); cbn [bind]; try discriminate.
+  destruct (0 <=? i) eqn:H0; cbn [andb]; [|discriminate].
+  destruct (i <? n) eqn:H1; [|discriminate]. intros _.
+  apply Z.leb_le in H0. apply Z.ltb_lt in H1. lia.
+Qed.
+
+Lemma create_ibb_segments_cbfs_ok_range n i flags fs co files s :
+  create_ibb_segments_cbfs n i flags fs co files = Ok s -> 0 <= i < n.
+Proof.
+  unfold create_ibb_segments_cbfs.
+  destruct (create_segments_cbfs flags fs co files); cbn [bind]; try discriminate.
+  destruct (0 <=? i) eqn:H0; cbn [andb]; [|discriminate].
+  destruct (i <? n) eqn:H1; [|discriminate]. intros _.
+  apply Z.leb_le in H0. apply Z.ltb_lt in H1. lia.
+Qed.
+
+(** ** CreateIBBSegments REPLACES the list of the requested SE element *)
+
+Theorem step_create_segs_replaces ver st i flags fit st' :
+  step ver st (OCreateSegs i flags (Some fit)) = (st', RUnit (Ok tt)) ->
+  0 <= i < se_count st /\
+  segs_of st' i = map (startup_seg flags) (filter is_startup fit) /\
+  (forall j, 0 <= j -> j <> i -> segs_of st' j = segs_of st j) /\
+  bg_digs st' = bg_digs st /\ se_count st' = se_count st.
+Proof.
+  cbn [step]. intros E. apply store_created_ok in E. destruct E as (s & Hr & ->).
+  apply create_ibb_segments_ok_inv in Hr. destruct Hr as [-> Hi].
+  split; [assumption|]. split; [apply put_segs_same; assumption|].
+  split; [intros j Hj Hn; apply put_segs_other; lia|].
+  split; [reflexivity|apply put_segs_se_count].
+Qed.
+
+Theorem step_create_segs_cbfs_replaces ver st i flags fs co files st' :
+  step ver st (OCreateSegsCbfs i flags fs co files) = (st', RUnit (Ok tt)) ->
+  0 <= i < se_count st /\
+  segs_of st' i = map (cbfs_seg flags fs co) (filter is_ibb_file files) /\
+  (forall j, 0 <= j -> j <> i -> segs_of st' j = segs_of st j) /\
+  bg_digs st' = bg_digs st /\ se_count st' = se_count st.
+Proof.
+  cbn [step]. intros E. apply store_created_ok in E. destruct E as (s & Hr & ->).
+  pose proof (create_ibb_segments_cbfs_ok_range _ _ _ _ _ _ _ Hr) as Hi.
+  apply create_ibb_segments_cbfs_ok_inv in Hr. subst s.
+  split; [assumption|]. split; [apply put_segs_same; assumption|].
+  split; [intros j Hj Hn; apply put_segs_other; lia|].
+  split; [reflexivity|apply put_segs_se_count].
+Qed.
+
+(** ... and it does succeed on every object with that SE element, whatever the element held *)
+Theorem step_create_segs_total ver st i flags fit :
+  0 <= i < se_count st ->
+  step ver st (OCreateSegs i flags (Some fit)) =
+  (put_segs st i (map (startup_seg flags) (filter is_startup fit)), RUnit (Ok tt)).
+Proof. intros Hi. cbn [step]. rewrite create_ibb_segments_exact by assumption. reflexivity. Qed.
+
+(** the second of two calls decides alone *)
+Theorem step_create_segs_twice ver st i f1 fit1 f2 fit2 st1 r1 st2 :
+  step ver st (OCreateSegs i f1 fit1) = (st1, r1) ->
+  step ver st1 (OCreateSegs i f2 (Some fit2)) = (st2, RUnit (Ok tt)) ->
+  segs_of st2 i = map (startup_seg f2) (filter is_startup fit2).
+Proof. intros _ H. apply step_create_segs_replaces in H. tauto. Qed.
+
+Theorem step_create_segs_failed_untouched ver st i flags fit st' res :
+  step ver st (OCreateSegs i flags fit) = (st', res) -> res <> RUnit (Ok tt) -> st' = st.
+Proof. cbn [step]. apply store_created_not_ok. Qed.
+
+(** ** what each operation may change *)
+
+Definition writes_se (o : op) : option Z :=
+  match o with
+  | OSetSegs i _ | OCreateSegs i _ _ | OCreateSegsCbfs i _ _ _ _ => Some i
+  | _ => None
+  end.
+
+Lemma store_created_se_count st i r : se_count (fst (store_created st i r)) = se_count st.
+Proof. destruct r; cbn [store_created fst]; try reflexivity. apply put_segs_se_count. Qed.
+
+Lemma step_se_count ver st o : se_count (fst (step ver st o)) = se_count st.
+Proof.
+  destruct o; cbn [step fst]; try reflexivity; try apply store_created_se_count.
+  - destruct (0 <=? se); [apply put_segs_se_count|reflexivity].
+  - destruct (se_count st =? 0); [reflexivity|].
+    destruct (create_digest_loop ver l img (segs_of st 0) (bg_digs st)). reflexivity.
+Qed.
+
+Lemma store_created_frame st i r j :
+  (forall s, r = Ok s -> 0 <= i) -> 0 <= j -> i <> j ->
+  segs_of (fst (store_created st i r)) j = segs_of st j.
+Proof.
+  intros Hr Hj Hn. destruct r; cbn [store_created fst]; try reflexivity.
+  apply put_segs_other; try assumption. eapply Hr. reflexivity.
+Qed.
+
+(** a call changes no segment list but that of the SE element it was asked to write;
+    GetIBBsDigest, CreateIBBDigest and IBBsMatchBPMDigest change none *)
+Theorem step_segs_frame ver st o j :
+  0 <= j -> writes_se o <> Some j -> segs_of (fst (step ver st o)) j = segs_of st j.
+Proof.
+  intros Hj Hw. destruct o; cbn [step fst writes_se] in *; try reflexivity.
+  - destruct (0 <=? se) eqn:H0; [|reflexivity]. apply Z.leb_le in H0.
+    apply put_segs_other; try assumption. congruence.
+  - apply store_created_frame; try assumption; [|congruence].
+    intros s Hs. apply create_ibb_segments_ok_range in Hs. lia.
+  - apply store_created_frame; try assumption; [|congruence].
+    intros s Hs. apply create_ibb_segments_cbfs_ok_range in Hs. lia.
+  - destruct (se_count st =? 0); [reflexivity|].
+    destruct (create_digest_loop ver l img (segs_of st 0) (bg_digs st)). reflexivity.
+Qed.
+
+(** GetIBBsDigest and IBBsMatchBPMDigest change nothing at all, CreateIBBDigest nothing but
+    the digests, CreateIBBSegments no digest *)
+Theorem step_reads_only ver st o :
+  match o with
+  | OGetDigest _ _ _ | OMatch _ => fst (step ver st o) = st
+  | OCreateDigest _ _ => bg_segs (fst (step ver st o)) = bg_segs st
+  | OCreateSegs _ _ _ | OCreateSegsCbfs _ _ _ _ _ | OSetSegs _ _ => bg_digs (fst (step ver st o)) = bg_digs st
+  | OSetAlgs _ => bg_segs (fst (step ver st o)) = bg_segs st
+  end.
+Proof.
+  destruct o; cbn [step fst]; try reflexivity.
+  - destruct (0 <=? se); reflexivity.
+  - destruct (create_ibb_segments (se_count st) se flags fit); reflexivity.
+  - destruct (create_ibb_segments_cbfs (se_count st) se flags file_size cbfs_off files); reflexivity.
+  - destruct (se_count st =? 0); [reflexivity|].
+    destruct (create_digest_loop ver l img (segs_of st 0) (bg_digs st)). reflexivity.
+Qed.
+
+(** ** sequences *)
+
+Lemma final_cons ver st o t : final ver st (o :: t) = final ver (fst (step ver st o)) t.
+Proof.
+  unfold final. cbn [run]. destruct (step ver st o) as [st1 r]. cbn [fst].
+  destruct (run ver st1 t). reflexivity.
+Qed.
+
+Lemma final_app ver : forall a st b, final ver st (a ++ b) = final ver (final ver st a) b.
+Proof.
+  induction a as [|o a IH]; intros st b; [reflexivity|].
+  cbn [app]. rewrite !final_cons. apply IH.
+Qed.
+
+Lemma final_se_count ver : forall ops st, se_count (final ver st ops) = se_count st.
+Proof.
+  induction ops as [|o t IH]; intros st; [reflexivity|].
+  rewrite final_cons, IH. apply step_se_count.
+Qed.
+
+Lemma final_segs_frame ver j : 0 <= j -> forall ops st,
+  Forall (fun o => writes_se o <> Some j) ops -> segs_of (final ver st ops) j = segs_of st j.
+Proof.
+  intros Hj. induction ops as [|o t IH]; intros st H; [reflexivity|].
+  inversion H; subst. rewrite final_cons, IH by assumption. apply step_segs_frame; assumption.
+Qed.
+
+(** After ANY sequence of calls, the segment list of SE[i] is exactly one segment per startup
+    entry of the image of the LAST CreateIBBSegments(i, ...) (nothing of earlier lists, of
+    earlier images, of other SE elements), provided nobody wrote SE[i] afterwards. *)
+Theorem run_segments_of_last_create ver st pre i flags fit post :
+  0 <= i < se_count st ->
+  Forall (fun o => writes_se o <> Some i) post ->
+  segs_of (final ver st (pre ++ OCreateSegs i flags (Some fit) :: post)) i =
+  map (startup_seg flags) (filter is_startup fit).
+Proof.
+  intros Hi Hpost. rewrite final_app, final_cons.
+  rewrite final_segs_frame by (try assumption; lia).
+  rewrite step_create_segs_total by (rewrite final_se_count; assumption).
+  cbn [fst]. apply put_segs_same. rewrite final_se_count. assumption.
+Qed.
+
+Theorem run_segments_of_last_create_cbfs ver st pre i flags fs co files post :
+  0 <= i < se_count st ->
+  Forall (fun o => writes_se o <> Some i) post ->
+  segs_of (final ver st (pre ++ OCreateSegsCbfs i flags fs co files :: post)) i =
+  map (cbfs_seg flags fs co) (filter is_ibb_file files).
+Proof.
+  intros Hi Hpost. rewrite final_app, final_cons.
+  rewrite final_segs_frame by (try assumption; lia).
+  cbn [step]. unfold create_ibb_segments_cbfs. rewrite create_segments_cbfs_exact. cbn [bind].
+  rewrite final_se_count.
+  replace (0 <=? i) with true by (symmetry; apply Z.leb_le; lia).
+  replace (i <? se_count st) with true by (symmetry; apply Z.ltb_lt; lia).
+  cbn [andb store_created fst]. apply put_segs_same. rewrite final_se_count. assumption.
+Qed.
+
+(** ** digests on an object with any history *)
+
+Lemma digest_preimage_anchored_total l region_end img segs :
+  anchored l (zlen img) region_end -> region_end <= zlen img ->
+  Forall (fun s => included s = true -> seg_in_region region_end img s) segs ->
+  digest_preimage l img segs =
+  Ok (concat (map (fun s => slice img (spec_offset region_end (sg_base s)) (sg_size s))
+                  (filter included segs))).
+Proof.
+  intros Ha Hre Hall.
+  assert (Hall' : Forall (fun s => included s = true ->
+                   BASE - region_end <= sg_base s < BASE /\ seg_inside (spec_offset region_end) img s /\
+                   spec_offset region_end (sg_base s) < zlen img) segs).
+  { eapply Forall_impl; [|exact Hall]. cbn beta. intros s Hi Hinc. destruct (Hi Hinc) as [Hr Hin].
+    split; [assumption|]. split; [assumption|]. unfold spec_offset. lia. }
+  destruct (digest_preimage_anchored_ok l region_end img segs Ha Hall') as [p Hp].
+  assert (Hall2 : Forall (fun s => included s = true ->
+                   BASE - region_end <= sg_base s < BASE /\ seg_inside (spec_offset region_end) img s) segs).
+  { eapply Forall_impl; [|exact Hall]. cbn beta. intros s Hi Hinc. exact (Hi Hinc). }
+  rewrite Hp. f_equal. exact (digest_preimage_anchored _ _ _ _ _ Ha Hall2 Hp).
+Qed.
+
+Lemma get_ibbs_digest_anchored_total ver alg l region_end img segs :
+  anchored l (zlen img) region_end -> region_end <= zlen img ->
+  alg_supported ver alg = true ->
+  Forall (fun s => included s = true -> seg_in_region region_end img s) segs ->
+  get_ibbs_digest ver alg l img segs =
+  Ok (alg, concat (map (fun s => slice img (spec_offset region_end (sg_base s)) (sg_size s))
+                       (filter included segs))).
+Proof.
+  intros Ha Hre Hs Hall. unfold get_ibbs_digest.
+  rewrite Hs, (digest_preimage_anchored_total _ _ _ _ Ha Hre Hall). reflexivity.
+Qed.
+
+(** GetIBBsDigest on an object with ANY history: the bytes of the image it is given *)
+Theorem step_get_digest_exact ver st alg l region_end img :
+  0 < se_count st ->
+  anchored l (zlen img) region_end -> region_end <= zlen img ->
+  alg_supported ver alg = true ->
+  Forall (fun s => included s = true -> seg_in_region region_end img s) (segs_of st 0) ->
+  step ver st (OGetDigest alg l img) =
+  (st, RDigest (Ok (alg, concat (map (fun s => slice img (spec_offset region_end (sg_base s)) (sg_size s))
+                                     (filter included (segs_of st 0)))))).
+Proof.
+  intros Hc Ha Hre Hs Hall. cbn [step].
+  replace (se_count st =? 0) with false by (symmetry; apply Z.eqb_neq; lia).
+  rewrite andb_false_r.
+  rewrite (get_ibbs_digest_anchored_total ver alg l region_end img _ Ha Hre Hs Hall).
+  reflexivity.
+Qed.
+
+Lemma create_digest_loop_total ver l img segs p : forall digs,
+  Forall (fun ad => alg_supported ver (fst ad) = true) digs ->
+  digest_preimage l img segs = Ok p ->
+  create_digest_loop ver l img segs digs = (map (fun ad => (fst ad, Some p)) digs, Ok tt).
+Proof.
+  induction 1 as [|[a old] t Ha Ht IH]; intros Hp; [reflexivity|].
+  cbn [create_digest_loop map fst]. cbn [fst] in Ha.
+  rewrite alg_roundtrips_iff_supported, Ha. unfold get_ibbs_digest. rewrite Ha, Hp. cbn [bind snd].
+  rewrite (IH Hp). reflexivity.
+Qed.
+
+(** every digest CreateIBBDigest leaves in the list was computed by THIS call or was there
+    before: the list keeps its length and its algorithms *)
+Lemma create_digest_loop_algs ver l img segs : forall digs,
+  map fst (fst (create_digest_loop ver l img segs digs)) = map fst digs.
+Proof.
+  induction digs as [|[a old] t IH]; [reflexivity|].
+  cbn [create_digest_loop]. destruct (alg_name_roundtrips ver a); [|reflexivity].
+  destruct (get_ibbs_digest ver a l img segs) as [ap| | |]; try reflexivity.
+  destruct (create_digest_loop ver l img segs t) as [t' r]. cbn [fst map] in *. f_equal. assumption.
+Qed.
+
+Lemma alg_supported_hashable ver a : alg_supported ver a = true -> alg_hashable ver a = true.
+Proof.
+  unfold alg_supported, alg_hashable. destruct (ver =? 1); [auto|].
+  destruct (a =? 4), (a =? 11), (a =? 12), (a =? 13), (a =? 18); cbn; auto.
+Qed.
+
+(** The whole generation chain on an object with ANY history (segments and digests of other
+    images, of earlier calls): CreateIBBSegments, CreateIBBDigest, IBBsMatchBPMDigest for one
+    image give one segment per startup entry of THAT image, the hash of THAT image's bytes
+    for every listed algorithm, and the validator accepts. *)
+Theorem run_pipeline_any_history ver st flags fit l img :
+  0 < se_count st ->
+  anchored l (zlen img) (zlen img) ->
+  Forall (fun e => is_startup e = true -> fit_entry_wf e) fit ->
+  Forall (fun s => included s = true -> seg_in_region (zlen img) img s)
+         (map (fun e => mkSeg (fe_addr e) (16 * fe_size e) flags) (filter is_startup fit)) ->
+  Forall (fun ad => alg_supported ver (fst ad) = true) (bg_digs st) ->
+  bg_digs st <> [] ->
+  let segs := map (fun e => mkSeg (fe_addr e) (16 * fe_size e) flags) (filter is_startup fit) in
+  let p := concat (map (fun s => slice img (spec_offset (zlen img) (sg_base s)) (sg_size s))
+                       (filter included segs)) in
+  run ver st [OCreateSegs 0 flags (Some fit); OCreateDigest l img; OMatch img] =
+  (mkBG (set_nth 0 segs (bg_segs st)) (map (fun ad => (fst ad, Some p)) (bg_digs st)),
+   [RUnit (Ok tt); RUnit (Ok tt); RBool (Ok true)]).
+Proof.
+  intros Hc Ha Hwf Hin Halgs Hne segs p.
+  assert (Hsegs : map (startup_seg flags) (filter is_startup fit) = segs).
+  { apply map_ext_in_filter. intros e He Hs. apply startup_seg_wf. rewrite Forall_forall in Hwf. auto. }
+  assert (Hp : digest_preimage l img segs = Ok p).
+  { apply digest_preimage_anchored_total; [assumption|lia|exact Hin]. }
+  assert (Hv : validator_preimage img segs = Ok p).
+  { eapply validator_agrees; [exact Ha| |exact Hp].
+    eapply Forall_impl; [|exact Hin]. cbn beta. intros s Hs Hi. exact (Hs Hi). }
+  cbn [run]. rewrite step_create_segs_total by lia. rewrite Hsegs.
+  set (st1 := put_segs st 0 segs).
+  assert (Hc1 : se_count st1 = se_count st) by apply put_segs_se_count.
+  assert (Hs1 : segs_of st1 0 = segs) by (apply put_segs_same; lia).
+  cbn [step]. rewrite Hc1.
+  replace (se_count st =? 0) with false by (symmetry; apply Z.eqb_neq; lia).
+  rewrite Hs1. change (bg_digs st1) with (bg_digs st).
+  rewrite (create_digest_loop_total ver l img segs p _ Halgs Hp).
+  set (st2 := mkBG (bg_segs st1) (map (fun ad => (fst ad, Some p)) (bg_digs st))).
+  assert (Hm : match_stored ver st2 img = Ok true).
+  { unfold match_stored. change (se_count st2) with (se_count st1). rewrite Hc1.
+    replace (se_count st =? 0) with false by (symmetry; apply Z.eqb_neq; lia).
+    change (segs_of st2 0) with (segs_of st1 0). rewrite Hs1.
+    cbn [bg_digs st2]. destruct (bg_digs st) as [|[a d] t] eqn:Hd; [congruence|].
+    cbn [map fst]. inversion Halgs as [|x y Hax Hay]; subst. cbn [fst] in Hax.
+    rewrite (alg_supported_hashable _ _ Hax), Hv. cbn [bind]. rewrite zlist_eqb_refl. reflexivity. }
+  rewrite Hm. reflexivity.
+Qed.
+
+(** the second call on an object that already carries segments (a loaded manifest: three
+    stale segments in SE[0], one in SE[1]): exactly the two startup entries of the image *)
+Lemma step_create_segs_second_call_witness :
+  step 2 (mkBG [[mkSeg 4294901760 4096 0; mkSeg 4294905856 256 0; mkSeg 1 2 3]; [mkSeg 7 7 7]] [(11, None)])
+       (OCreateSegs 0 0 (Some [mkFE 0 2314885531223937887 4; mkFE 7 (4294967296 - 48) 1;
+                               mkFE 11 (4294967296 - 16) 8; mkFE 7 (4294967296 - 32) 1])) =
+  (mkBG [[mkSeg (4294967296 - 48) 16 0; mkSeg (4294967296 - 32) 16 0]; [mkSeg 7 7 7]] [(11, None)],
+   RUnit (Ok tt)).
+Proof. vm_compute. reflexivity. Qed.
+
+(** one buffer, two images: a 64-byte image with the descriptor's BIOS region [16,48) and
+    then, in the same 64 bytes, a bare BIOS region; the same segment list, the same object:
+    each digest is over the bytes of the image the call was given *)
+Lemma run_two_layouts_witness :
+  snd (run 2 (mkBG [[mkSeg (4294967296 - 16) 8 0]] [(11, None)])
+           [OGetDigest 11 (LIFD 16 32) (seqZ 0 64); OGetDigest 11 LBiosOnly (seqZ 0 64)]) =
+  [RDigest (Ok (11, seqZ 32 8)); RDigest (Ok (11, seqZ 48 8))].
+Proof. vm_compute. reflexivity. Qed.
+
+(** ** stitching the same file twice *)
+
+Theorem stitch_twice_frame_region l img fit a1 b1 k1 a2 b2 k2 i :
+  anchored l (zlen img) (zlen img) -> entries_in_window (zlen img) fit ->
+  Forall (fun e => fe_type e = T_SACM -> spec_offset (zlen img) (fe_addr e) + zlen a1 <= zlen img) fit ->
+  0 <= i ->
+  (forall e, In e fit -> ~ in_entry_region (zlen img) e a1 b1 k1 i) ->
+  (forall e, In e fit -> ~ in_entry_region (zlen img) e a2 b2 k2 i) ->
+  zn (fst (stitch l (fst (stitch l img (Some fit) a1 b1 k1)) (Some fit) a2 b2 k2)) i = zn img i.
+Proof.
+  intros Ha Hw Hacm Hi H1 H2.
+  pose proof (stitch_length_region l img fit a1 b1 k1 Ha Hw Hacm) as Hl.
+  pose proof (stitch_frame_region l img fit a1 b1 k1 i Ha Hw Hi H1) as Hf1.
+  remember (fst (stitch l img (Some fit) a1 b1 k1)) as img1 eqn:E1.
+  rewrite <- Hf1.
+  apply stitch_frame_region; rewrite ?Hl; assumption.
+Qed.
